@@ -537,7 +537,7 @@ def correspondence(ctx):
 if __name__ == "__main__":
     common.run_check(
         "C20", module="Bermuda.Properties.C20", driver_targets=["drv_c20"],
-        correspondence=correspondence, level="translation_validation", extra_translate=translate_c20.regenerate,
+        correspondence=correspondence, level="proof", extra_translate=translate_c20.regenerate,
         rule="random triangles with the standard loss/premium fields (+ sometimes reported_claims / incurred_loss): "
              "scalar, sample (2-11 samples) or mixed observed/predicted; 1-3 slices with different or shared layouts; "
              "regular, ragged and day-level; cells lacking premium / a loss field / holding None / a Python zero premium / "
